@@ -294,8 +294,9 @@ def toKwargs (ns : Namespace) : Kwargs where
   outfile := NS.getD ns "outfile" .none
   align := NS.getD ns "align" (.bool false)
 
-/-- ASCII lower-casing of a string (`str.lower()` restricted to what matters for the words
-    `true`/`false`: no non-ASCII string lower-cases to either of them). -/
+/-- ASCII lower-casing of a string (`str.lower()` restricted to what matters for the eight
+    boolean words: no string containing a non-ASCII character lower-cases to any of them —
+    checked over all code points in the validation). -/
 def lowerAscii (s : String) : List Char := s.toList.map Char.toLower
 
 /-- `val.split("\n")` on the characters; `cur` is the current line, reversed -/
@@ -317,20 +318,34 @@ def configDest (key : String) : String :=
   else if key = "out" then "outfile"
   else key
 
+/-- the words `parse_config_file` reads as "on" for a boolean key: `val.lower() in ("true", "yes", "on", "1")` -/
+def trueWords : List (List Char) := ["true".toList, "yes".toList, "on".toList, "1".toList]
+
+/-- … and as "off": `val.lower() in ("false", "no", "off", "0")` -/
+def falseWords : List (List Char) := ["false".toList, "no".toList, "off".toList, "0".toList]
+
+def isTrueWord (val : String) : Bool := trueWords.contains (lowerAscii val)
+
+def isFalseWord (val : String) : Bool := falseWords.contains (lowerAscii val)
+
 /-- The value a configuration entry is stored as. -/
 def configVal (key val : String) : Val :=
   if key = "announce" ∨ key = "http-seed" ∨ key = "web-seed" ∨ key = "tracker" then .list (splitLines val)
   else if key = "piece-length" ∨ key = "meta-version" ∨ key = "out" then .str val
   else if key = "private" ∨ key = "align" ∨ key = "magnet" ∨ key = "cwd" then
-    if lowerAscii val = "true".toList then .bool true
-    else if lowerAscii val = "false".toList then .bool false
+    if isTrueWord val then .bool true
+    else if isFalseWord val then .bool false
     else .str val
   else .str val
 
 /-- `commands.parse_config_file(path, kwargs)` after `fix: configuration file keys web-seed,
-    tracker and out reach the torrent` and `fix: configuration file converts true/false only for
-    boolean options`, on the items of the `[config]` section as `configparser`
-    delivers them (keys already lower-cased by `configparser`, so `key.lower()` is the key):
+    tracker and out reach the torrent`, `fix: configuration file converts true/false only for
+    boolean options`, `fix: a '%' in a configuration file value is taken literally` and `fix: 'no',
+    'off' and '0' switch a boolean configuration option off`, on the items of the `[config]`
+    section as `configparser.ConfigParser(interpolation=None)` delivers them: keys already
+    lower-cased by `configparser` (so `key.lower()` is the key), values verbatim — a `%` is an
+    ordinary character — with surrounding blanks stripped and continuation lines joined by
+    `"\n"`:
     ```
     for key, val in config["config"].items():
         if key.lower() in ["announce", "http-seed", "web-seed", "tracker"]:
@@ -342,7 +357,8 @@ def configVal (key val : String) : Val :=
         elif key.lower() == "meta-version": kwargs["meta_version"] = val
         elif key.lower() == "out": kwargs["outfile"] = val
         elif key.lower() in ("private", "align", "magnet", "cwd"):
-            if val.lower() in ("true", "false"): kwargs[key.lower()] = val.lower() == "true"
+            if val.lower() in ("true", "yes", "on", "1"): kwargs[key.lower()] = True
+            elif val.lower() in ("false", "no", "off", "0"): kwargs[key.lower()] = False
             else: kwargs[key.lower()] = val
         else: kwargs[key.lower()] = val
     ``` -/
@@ -544,13 +560,13 @@ def documentedConfig : List (String × String) := [
 /-- The configuration entry `(key, v)` says the same as the option group `g`: the key is the
     documented key of the group's flag; for a list-valued option the non-empty lines of the
     value are the group's values, for a single-valued one the value is the group's value, for
-    a switch the value is `true` (any case). -/
+    a switch the value is one of the words `true`, `yes`, `on`, `1` (any letter case). -/
 def ConfigMatches (t : Table) (g : Group) (kv : String × String) : Prop :=
   (kv.1, g.flag) ∈ documentedConfig ∧
   match t.lookup g.flag with
   | none => False
   | some o => match o.nargs with
-    | .zero => Impl.lowerAscii kv.2 = "true".toList
+    | .zero => Impl.isTrueWord kv.2 = true
     | .one => g.vals = [kv.2]
     | .plus => Impl.splitLines kv.2 = g.vals
 
